@@ -31,5 +31,8 @@ C15_Design == res # "bad"
 \* the sections lists the conformance check uses, with the command line the specification prescribes
 ExportLists == { <<>>, <<".text">>, <<".foo">>, <<".plt.got">>, <<".text", ".foo">>, <<".foo", ".text">>,
                  <<".nope">>, <<".text", ".nope">>, <<".data">>, <<".foo", ".plt.got">>,
-                 <<".text.Foo_Bar">>, <<".text", ".text.Foo_Bar">> }
+                 <<".text.Foo_Bar">>, <<".text", ".text.Foo_Bar">>,
+                 \* a code section together with a section that has contents but no CODE flag (objdump -d -j NAME
+                 \* disassembles whatever section is named)
+                 <<".text", ".data">>, <<".data", ".foo">> }
 =============================================================================
